@@ -38,6 +38,15 @@ def seq(t):
         return seq(t[2][0])
     if t[0] == "iter":
         return seq(t[1])
+    if t[0] == "seq" and t[3] == sym.ELEM and all(op[0] == "chain" for op in t[2]):
+        # a.into_iter().chain(b).collect(): a's elements then b's
+        out = seq(t[1])
+        for op in t[2]:
+            nxt = seq(op[2])
+            if out is None or nxt is None:
+                return None
+            out = out + nxt
+        return out
     if t[0] == "after_loop":
         return [("atom", t)]
     return None
